@@ -195,3 +195,110 @@ func c13R9(h H) {
 	_, hdrBad, n, total := fcgiStatusTable(h, fn)
 	r.Check(hdrBad == "" && total > 0, "R9", "fastcgi.(*FCGIClient).Request/header-without-status-line", fn.Pos(), "the status line is consumed, the other fields are kept", fmt.Sprintf("%d header blocks evaluated", n), hdrBad)
 }
+
+// c13R10: the request body a handler reads is the body the client sent, whatever is kept of it for the log.  The
+// per-request replacer wraps r.Body so that the first 100 KiB can be shown by {request_body}; the wrapper must hand on
+// every byte the connection delivers, before, across and after that limit.  NewReplacer is evaluated (E10; the
+// connection's body is an oracle that fills each buffer it is given, io.TeeReader is modelled as the standard library
+// defines it, the capture buffer's own Write is module code and is evaluated) and the body it leaves in the request is
+// read three times with a 60 000-byte buffer: every read returns the 60 000 bytes the connection delivered.
+func c13R10(h H) {
+	r := h.r
+	r.Rule("R10", "keeping a copy of the body for the log does not shorten the body, as a table (E10) of the reader httpserver.NewReplacer leaves in Request.Body: three reads of 60 000 bytes — before, across and beyond the 100 KiB the {request_body} placeholder keeps — each return exactly what the connection delivered, with no error", 1)
+	fn := h.fn("R10", hs, "NewReplacer")
+	if fn == nil {
+		return
+	}
+	reqT := derefType(fn.Params[0].Type())
+	const chunk = 60000
+	src := &aobj{name: "connection body", typ: types.Typ[types.Int], f: map[string]aval{}}
+	type tee struct{ r, w aval }
+	tees := map[*aobj]tee{}
+	env := &absEnv{globals: map[string]*aobj{}, noFork: true, maxSteps: 5000000}
+	prog := h.p.SSA
+	env.ext = func(callee string, args []aval) (aval, bool) {
+		switch {
+		case callee == "(*net/http.Request).Context":
+			return aiface{aptr{&aobj{name: "ctx", typ: types.Typ[types.Int], f: map[string]aval{}}, ""}, types.Typ[types.Int]}, true
+		case callee == "invoke:Value":
+			return anil{}, true
+		case callee == "io.TeeReader":
+			o := &aobj{name: "tee reader", typ: types.Typ[types.Int], f: map[string]aval{}}
+			tees[o] = tee{args[0], args[1]}
+			return aiface{aptr{o, ""}, types.Typ[types.Int]}, true
+		case callee == "(*bytes.Buffer).Write":
+			if sl, ok := args[1].(avals); ok {
+				return atuple{aint(int64(len(sl.cells))), anil{}}, true
+			}
+		case callee == "invoke:Read":
+			p, _ := ifaceVal(args[0]).(aptr)
+			if p.obj == src {
+				if sl, ok := args[1].(avals); ok {
+					return atuple{aint(int64(len(sl.cells))), anil{}}, true
+				}
+			}
+			if t, ok := tees[p.obj]; ok {
+				// io.TeeReader: n, err = r.Read(p); if n > 0 { if n, err := w.Write(p[:n]); err != nil { return n, err } }; return
+				res, handled := env.ext("invoke:Read", []aval{t.r, args[1]})
+				tp, isT := res.(atuple)
+				if !handled || !isT {
+					return aunk{"tee source"}, true
+				}
+				if w, ok := t.w.(aiface); ok {
+					if wr, ok := env.callMethod(prog, w, "Write", args[1]); ok {
+						if wt, ok := wr.(atuple); ok && len(wt) == 2 {
+							if _, isNil := wt[1].(anil); !isNil {
+								return atuple{wt[0], wt[1]}, true
+							}
+						}
+					} else {
+						return aunk{"tee writer's Write could not be evaluated"}, true
+					}
+				}
+				return tp, true
+			}
+		case callee == "invoke:Close":
+			return anil{}, true
+		}
+		return nil, false
+	}
+	req := &aobj{name: "request", typ: reqT, f: map[string]aval{"Body": aiface{aptr{src, ""}, types.Typ[types.Int]}}}
+	req.in = func(o *aobj, path string, t types.Type) aval { return aunk{"request field " + path} }
+	_, und := env.run(fn, []aval{aptr{req, ""}, anil{}, astr("")})
+	bad, n := "", 0
+	if und != "" {
+		bad = "NewReplacer: undecided — " + und
+	}
+	body, isI := env.load(req, "Body").(aiface)
+	if bad == "" && !isI {
+		bad = "NewReplacer leaves the request body " + describeAval(env.load(req, "Body"))
+	}
+	for i := 1; i <= 3 && bad == ""; i++ {
+		var cells []aval
+		for k := 0; k < chunk; k++ {
+			cells = append(cells, aint(0))
+		}
+		buf := newVals(cells, types.Typ[types.Uint8])
+		var res aval
+		if p, ok := body.val.(aptr); ok && p.obj == src {
+			res, _ = env.ext("invoke:Read", []aval{body, buf}) // the body was left as it came
+		} else if rv, ok := env.callMethod(prog, body, "Read", buf); ok {
+			res = rv
+		} else {
+			bad = sprintf("read %d: the Read method of the body NewReplacer installed could not be evaluated", i)
+			break
+		}
+		n++
+		tp, ok := res.(atuple)
+		if !ok || len(tp) != 2 {
+			bad = sprintf("read %d: returns %s", i, describeAval(res))
+			break
+		}
+		got, _ := tp[0].(aint)
+		_, noErr := tp[1].(anil)
+		if int64(got) != chunk || !noErr {
+			bad = sprintf("read %d of %d bytes (%d bytes read before it; the log keeps the first 102400): the connection delivers %d bytes and the handler is told %s, error %s — the rest of this read never reaches the responder or the backend, and nothing reports it", i, chunk, (i-1)*chunk, chunk, describeAval(tp[0]), describeAval(tp[1]))
+		}
+	}
+	r.Check(bad == "", "R10", "httpserver.NewReplacer/body-reader-hands-on-every-byte", fn.Pos(), "the body wrapper for {request_body} is transparent", sprintf("%d reads evaluated", n), bad)
+}
